@@ -523,6 +523,109 @@ def decomp_compare(ctx, sf, case, sym, model):
             return
 
 
+# =============================================================== B3b: param.expand (Compiler.decompose)
+
+PRIMS = {"Dgate": 2, "Sgate": 2, "Rgate": 1, "BSgate": 2}
+
+
+def gen_expand_case(rng):
+    u = next(_uid)
+    names = [f"e{u}"]
+    meas = {m: dy(rng, -8, 8) for m in INFO_MODES}
+    free = {names[0]: dy(rng, -8, 8)}
+    cmds = []
+    for _ in range(rng.randint(2, 5)):
+        cls = rng.choice(list(TEMPLATES) + list(PRIMS))
+        npar = TEMPLATES.get(cls, PRIMS.get(cls))
+        ps = []
+        for _k in range(npar):
+            if rng.random() < 0.3:
+                ps.append(px.num(dy(rng, -8, 8)))
+                continue
+            for _try in range(50):
+                t = px.gen_expr(rng, rng.randint(0, 2), names, INFO_MODES, p_atom=0.5)
+                if px.well_conditioned(t, free, meas, 50) and abs(px.fold(t, free, meas)) > 1e-3:
+                    break
+            else:
+                t = {"m": 10}
+            ps.append(t)
+        two = cls in TWO or cls == "BSgate"
+        cmds.append(dict(cls=cls, pars=ps, regs=rng.sample([0, 3, 5, 10, 11], 2 if two else 1),
+                         dagger=cls != "DisplacedSqueezed" and rng.random() < 0.4))
+    return dict(n=12, names=names, meas=meas, free=free, cmds=cmds, compiler=rng.choice(["fock", "gaussian", "bosonic"]))
+
+
+def expand_real(sf, case, numeric):
+    from strawberryfields import ops
+    from strawberryfields.compilers import compiler_db
+    from strawberryfields.parameters import par_evaluate
+    prog = sf.Program(case["n"])
+    fobj = {nm: prog.params(nm) for nm in case["names"]}
+    env_m = {int(k): v for k, v in case["meas"].items()}
+    for m, v in env_m.items():
+        prog.reg_refs[m].val = np.array([v])
+    for nm, v in case["free"].items():
+        fobj[nm].val = v
+    with prog.context:
+        q = prog.reg_refs
+        for c in case["cmds"]:
+            pars = [px.numval(t) if "n" in t else (float(px.fold(t, case["free"], env_m)) if numeric else px.to_sympy(t, fobj, q))
+                    for t in c["pars"]]
+            o = getattr(ops, c["cls"])(*pars)
+            if c["dagger"]:
+                o = o.H
+            regs = [q[i] for i in c["regs"]]
+            o | (regs if len(regs) > 1 else regs[0])
+    comp = compiler_db[case["compiler"]]()
+    out = comp.decompose(prog.circuit)
+    return [(type(c.op).__name__, [r.ind for r in c.reg], bool(getattr(c.op, "dagger", False)),
+             [float(x) for x in par_evaluate(c.op.p)]) for c in out], sorted(comp.decompositions)
+
+
+def expand_one(ctx, sf, case, reqs, pend):
+    from strawberryfields.program_utils import CircuitError
+    rp = dict(kind="expand", case=case)
+    ctx.count("expand_" + case["compiler"], case, True, sample=case)
+    try:
+        numc, dec = expand_real(sf, case, True)
+    except CircuitError:
+        ctx.tally("expand_rejected_by_compiler")
+        return
+    ctx.oracle_cases += 1
+    try:
+        sym, dec = expand_real(sf, case, False)
+    except Exception as e:
+        ctx.fail("compile-symbolic-raises", f"{case['compiler']}.decompose runs on the substituted circuit but raises "
+                 f"{type(e).__name__}: {str(e)[:160]} on the symbolic one", rp)
+        return
+    if len(sym) != len(numc) or not all(a[:3] == b[:3] and px.close(a[3], b[3]) for a, b in zip(sym, numc)):
+        ctx.fail("compile-symbolic-vs-substituted", f"{case['compiler']}.decompose: symbolic circuit evaluates to {sym}, "
+                 f"substituted circuit decomposes to {numc}", rp)
+    if ctx.proof_ok:
+        reqs.append({"op": "param.expand", "cmds": case["cmds"], "dec": dec, "fuel": 4})
+        pend.append(("expand", case, sym))
+
+
+def expand_compare(ctx, sf, case, sym, model):
+    ctx.corr_cases += 1
+    if isinstance(model, dict) and "__error__" in model:
+        ctx.disagree("Compiler.decompose", case, model, "driver error")
+        return
+    env_f = dict(case["free"])
+    env_f.update(consts(sf))
+    env_m = {int(k): v for k, v in case["meas"].items()}
+    shape_m = [(c["cls"], c["regs"], c["dagger"]) for c in model]
+    shape_r = [(a[0], a[1], a[2]) for a in sym]
+    if shape_m != shape_r:
+        ctx.disagree("Compiler.decompose.shape", case, shape_m, shape_r)
+        return
+    for c, a in zip(model, sym):
+        mv = [px.fold(t, env_f, env_m) for t in c["pars"]]
+        if len(mv) != len(a[3]) or not px.close(mv, a[3]):
+            ctx.disagree("Compiler.decompose.pars", case, mv, a[3])
+            return
+
+
 # =============================================================== B4: param.engine (histories)
 
 USE_OPS = ["Dgate", "Rgate", "Sgate", "Kgate"]
@@ -1457,6 +1560,8 @@ def flush(ctx, sf, reqs, pend):
             history_compare(ctx, case, got, model)
         elif kind == "session":
             session_compare(ctx, case, got, model)
+        elif kind == "expand":
+            expand_compare(ctx, sf, case, got, model)
         elif kind == "convert":
             convert_compare(ctx, case, got, model)
     reqs.clear()
@@ -1475,6 +1580,8 @@ def dispatch(ctx, sf, item, reqs, pend):
         prog_one(ctx, sf, item["case"], item["cfg"])
     elif k == "session":
         session_one(ctx, sf, item["case"], reqs, pend)
+    elif k == "expand":
+        expand_one(ctx, sf, item["case"], reqs, pend)
     elif k == "convert":
         convert_one(ctx, sf, item["case"], reqs, pend)
     elif k == "cache_order":
@@ -1518,6 +1625,8 @@ def run(ctx, sf):
         safe(ctx, sf, dict(kind="free", case=gen_free_script(rng)), reqs, pend)
     for _ in range(ctx.n(300, 5000)):
         safe(ctx, sf, dict(kind="decomp", case=gen_decomp_case(rng)), reqs, pend)
+    for _ in range(ctx.n(150, 3000)):
+        safe(ctx, sf, dict(kind="expand", case=gen_expand_case(rng)), reqs, pend)
     for _ in range(ctx.n(200, 3000)):
         safe(ctx, sf, dict(kind="convert", case=gen_convert_case(rng)), reqs, pend)
     for k in range(ctx.n(450, 9000)):
